@@ -52,12 +52,14 @@ Reseg(tr, s, seq, chunkDur, acc) ==
     ELSE Reseg(tr, s + 1, seq, chunkDur, acc)
 
 (* ------------------------------------------------------------- generator *)
-VideoOfN(n) == {[kind |-> "video", ts |-> 1000, durs |-> [i \in 1 .. n |-> IF alt /\ i % 2 = 0 THEN 20 ELSE 10], sizes |-> [i \in 1 .. n |-> i + 2],
+\* stss: the sync sample table is written; a track whose samples are all sync samples may come without one (8.6.2.1)
+VideoOfN(n) == {v \in {[kind |-> "video", ts |-> 1000, durs |-> [i \in 1 .. n |-> IF alt /\ i % 2 = 0 THEN 20 ELSE 10], sizes |-> [i \in 1 .. n |-> i + 2],
                  ctos |-> IF ct THEN [i \in 1 .. n |-> IF i % 3 = 2 THEN 20 ELSE IF i % 3 = 0 THEN 10 ELSE 0] ELSE <<>>,
-                 sync |-> sy, spc |-> ch] : alt \in BOOLEAN, ct \in BOOLEAN, sy \in {S \cup {1} : S \in SUBSET (2 .. n)},
-                                            ch \in ({<<n>>, Rep(1, n)} \cup (IF n >= 3 THEN {<<1, n - 1>>} ELSE {}))}
+                 sync |-> sy, spc |-> ch, stss |-> st] : alt \in BOOLEAN, ct \in BOOLEAN, sy \in {S \cup {1} : S \in SUBSET (2 .. n)},
+                                            ch \in ({<<n>>, Rep(1, n)} \cup (IF n >= 3 THEN {<<1, n - 1>>} ELSE {})), st \in BOOLEAN} :
+                v.stss \/ v.sync = 1 .. n}
 Videos == UNION {VideoOfN(n) : n \in NVideo}
-AudioOfN(n) == {[kind |-> "audio", ts |-> 500, durs |-> Rep(7, n), sizes |-> Rep(2, n), ctos |-> <<>>, sync |-> 1 .. n, spc |-> ch] : ch \in {<<n>>, Rep(1, n)}}
+AudioOfN(n) == {[kind |-> "audio", ts |-> 500, durs |-> Rep(7, n), sizes |-> Rep(2, n), ctos |-> <<>>, sync |-> 1 .. n, spc |-> ch, stss |-> TRUE] : ch \in {<<n>>, Rep(1, n)}}
 Audios == AudioOfN(8) \cup AudioOfN(13)
 ProgFiles == {<<v>> : v \in Videos} \cup (IF WithAudio THEN {<<v, a>> : v \in Videos, a \in Audios} ELSE {})
 SegDurs(v) == {10, 15, 20, 30, 45, Total(v.durs), Total(v.durs) + 10}
@@ -67,7 +69,7 @@ SegDurs(v) == {10, 15, 20, 30, 45, Total(v.durs), Total(v.durs) + 10}
 IndepOpts(v) == LET ns == (1 .. Len(v.durs)) \ v.sync IN {{}, ns, {s \in ns : s % 2 = 0}}
 FragInputs == UNION {{[tr |-> v, frags |-> fc, twotruns |-> tt, indep |-> ip] : fc \in {c \in Comp(4) \cup Comp(6) \cup Comp(5) : SumF(c, 1, Len(c)) = Len(v.durs)},
                                                                                 tt \in BOOLEAN, ip \in IndepOpts(v)} :
-                     v \in {x \in Videos : x.spc = <<Len(x.durs)>>}}
+                     v \in {x \in Videos : x.spc = <<Len(x.durs)>> /\ x.stss}}
 
 VARIABLES inp, d, phase
 vars == <<inp, d, phase>>
@@ -91,7 +93,7 @@ FragOK == (Mode = "frag" /\ phase = "done") =>
     /\ \A i \in 1 .. Len(st) : IsSyncV(inp.tr, st[i])
     /\ \A i \in 1 .. (Len(st) - 1) : st[i] < st[i + 1]
 
-TrackJ(tr) == [kind |-> tr.kind, ts |-> tr.ts, durs |-> tr.durs, sizes |-> tr.sizes, ctos |-> tr.ctos, hasstss |-> TRUE,
+TrackJ(tr) == [kind |-> tr.kind, ts |-> tr.ts, durs |-> tr.durs, sizes |-> tr.sizes, ctos |-> tr.ctos, hasstss |-> tr.stss,
                sync |-> [s \in 1 .. Len(tr.durs) |-> s \in tr.sync], spc |-> tr.spc]
 Export == (DoExport /\ phase = "done") =>
     PrintT(ToJson(IF Mode = "prog"
